@@ -324,6 +324,9 @@ class Ctx:
         shutil.rmtree(self.work, ignore_errors=True)
         os.makedirs(self.work)
         os.makedirs(self.replay_dir, exist_ok=True)
+        import glob
+        for f in glob.glob(os.path.join(self.replay_dir, "%s_%s_*.json" % (pid, tier))):
+            os.remove(f)
 
     # ---- shell ----
     def sh(self, cmd, timeout=600, env=None, cwd=None, check=True, stdin=None):
